@@ -155,9 +155,25 @@ def sx_str(x='', *args):
         return f()
     if type(x).__name__ == 'SymBytes':
         from . import chars
-        for v in x.items():
-            if not isinstance(v, int) and not (v < 128):
-                raise Unsupported('decoding symbolic non-ASCII bytes')
+        enc = (args[0] if args else 'utf-8').lower().replace('_', '-')
+        errors = args[1] if len(args) > 1 else 'strict'
+        for i, v in enumerate(x.items()):
+            if isinstance(v, int):
+                if v < 128:
+                    continue
+            elif v < 128:
+                continue
+            # a byte >= 0x80: never valid ASCII; UTF-8 sequences are not modelled
+            if enc in ('ascii', 'us-ascii') and errors == 'strict':
+                raise UnicodeDecodeError('ascii', b'\x80', 0, 1, 'ordinal not in range(128)')
+            if enc in ('utf-8', 'utf8') and errors == 'strict' and ctx().env.get('utf8_nondet'):
+                # harness opt-in over-approximation: a high byte either makes the text invalid
+                # or decodes (one character per byte; multi-byte merging is not modelled)
+                ctx().env['nondet_used'] = True
+                if bool(ctx().bool(ctx().fresh_name('utf8_invalid'), register=False)):
+                    raise UnicodeDecodeError('utf-8', b'\x80', 0, 1, 'invalid start byte')
+                continue
+            raise Unsupported('decoding symbolic non-ASCII bytes')
         return chars.mk(x.items())
     return str(x, *args)
 
